@@ -501,7 +501,7 @@ async def run_steps(W: World, steps: list[dict[str, Any]], rng: random.Random | 
             m = W.metric_objects.get(okey)
             if m is None:
                 m = W.metric_objects[okey] = metricsfam.make(step["type"], okey)
-            fn = metricsfam.merge_fn(step.get("merge", "default"))
+            fn = metricsfam.merge_fn(step.get("merge", "default"), step.get("merge_form"))
             W.event("record", step["id"], step["type"], step.get("merge", "default"))
             try:
                 if fn is None:
